@@ -242,9 +242,10 @@ PROPS.update({
     },
     "C04": {
         "props_module": "NexoVerif.Props.C04",
-        "model": "M-NET (NexoVerif/Model/Net.lean, NetRun.lean), M-TASK (NexoVerif/Model/Task.lean) and M-POOL (NexoVerif/Model/Pool.lean)",
+        "model": "M-NET (NexoVerif/Model/Net.lean, NetRun.lean), M-TASK (NexoVerif/Model/Task.lean), M-POOL (NexoVerif/Model/Pool.lean) and M-INJ (NexoVerif/Model/Inj.lean)",
         "engines": [{"name": "net", "rule": NET_RULE},
-                    {"name": "task", "rule": "see C13: real task handles driven sequentially incl. re-entrant wakes; the number of scheduled Runnables is compared after every operation (a lost or duplicated wake-up shows up as a missing or extra Runnable)"}],
+                    {"name": "task", "rule": "see C13: real task handles driven sequentially incl. re-entrant wakes; the number of scheduled Runnables is compared after every operation (a lost or duplicated wake-up shows up as a missing or extra Runnable)"},
+                    {"name": "inj", "rule": "the real injector queue (executor/mt_executor/injector.rs through the verif hook, buckets of 3): every sequence up to length 6 (quick) / 8 (thorough) over insert_task / push_bucket of 1 or 3 / pop_bucket, random ones up to 60 / 200 operations, each followed by a full drain; the bucket handed out (task order included) and the is_empty flag are compared after every operation; monitors: pop_bucket = None only when nothing is held, no empty bucket, no task duplicated or invented, is_empty exact"}],
         "assumptions": NET_ASSUME + [
             "schedule-independence of the multisets of handler invocations and of sink outputs is proved over M-NET (paths in the unfolding tree as ghost data); the engine additionally compares ST, MT (2-8 workers) and model runs",
             "M-POOL: the idle-detection protocol of mt_executor (worker loop head, pool manager flags, parking, Executor::run) at the granularity of its atomic steps, any number of workers, every interleaving, sequentially consistent; stealing, overflow to the injector and sibling activation are over-approximated (possible at any moment); its step structure and the position of the count publication are read from the source by the extractor (worker_loop_shape); the net engine perturbs the real protocol with seeded delays at six protocol points (cfg nexosim_verif)",
